@@ -5,6 +5,7 @@ import (
 	"math/big"
 	"os"
 	"sort"
+	"sync"
 	"testing"
 
 	sdkmath "cosmossdk.io/math"
@@ -16,6 +17,7 @@ import (
 	"pgregory.net/rapid"
 
 	tokenkeeper "mods.irisnet.org/modules/token/keeper"
+	tokentypes "mods.irisnet.org/modules/token/types"
 	v1 "mods.irisnet.org/modules/token/types/v1"
 
 	"verifharness/chain"
@@ -39,6 +41,7 @@ type tok10 struct {
 	noDeploy        bool             // the generator never binds a contract to this token
 	twin            int              // index of the token whose SYMBOL equals this token's MIN UNIT (-1: none)
 	twinOf          int              // index of the token whose MIN UNIT equals this token's SYMBOL (-1: none)
+	restored        bool             // had a contract when the module went through a genesis export/import
 }
 
 var c10Tokens = []tok10{
@@ -54,6 +57,25 @@ var c10Tokens = []tok10{
 	{symbol: "gold", minUnit: "ugold", scale: 18, owner: 0, registered: true},
 	{symbol: "argent", minUnit: "silver", scale: 0, owner: 1, registered: true, noDeploy: true},
 	{symbol: "silver", minUnit: "usilver", scale: 6, owner: 2, registered: true},
+	{symbol: "atom", minUnit: c10IBCDenom, scale: 6, owner: -1, registered: false}, // IBC voucher: token record only once deployed
+}
+
+const c10IBCTok = 9
+
+// c10IBCDenom is a bank denom as the IBC transfer module makes them (upper-case hash, slash): DeployERC20 accepts
+// such min units for denoms with a trace (MsgDeployERC20.ValidateBasic -> ValidateERC20), it is the case the
+// trace-only branch of buildERC20Token was written for.
+const c10IBCDenom = "ibc/27394FB092D2ECCD56123C74F36E4C1F926001CEADA9CA97EA622B25F41E5EB2"
+
+var (
+	c10EnvOnce sync.Once
+	c10EnvV    *chain.Env
+)
+
+// c10Env is the environment of the C10 machine: the default universe plus whale balances of the IBC denom.
+func c10Env() *chain.Env {
+	c10EnvOnce.Do(func() { c10EnvV = chain.NewEnv(chain.Options{ExtraDenoms: []string{c10IBCDenom}}) })
+	return c10EnvV
 }
 
 // indices of the tokens that take part in a cross-namespace collision
@@ -90,6 +112,8 @@ type m10 struct {
 	cls      map[string]bool
 	avoidF6  bool
 	avoidXNS bool // generator switch: no fee swap whose target min unit is another token's symbol
+	avoidIBC bool // generator switch: no restart while the IBC voucher has a token record
+	nReimp   int
 	moduleEt common.Address
 	feeSrv   map[string]v1.MsgServer // fee-swap msg servers over persistent registries, per (pair, ratio)
 	feeSeen  []op10                  // fee swaps drawn so far (generator: repeat a pair and ratio)
@@ -113,10 +137,10 @@ func mustOK(r chain.Result, what string) {
 }
 
 func newC10() pbt.Machine[op10] {
-	c := gen.Env().NewCase()
+	c := c10Env().NewCase()
 	e := c.E
 	m := &m10{c: c, enabled: true, cls: map[string]bool{}, avoidF6: os.Getenv("VERIF_C10_AVOID_F6") != "",
-		avoidXNS: os.Getenv("VERIF_C10_AVOID_XNS_FEESWAP") != ""}
+		avoidXNS: os.Getenv("VERIF_C10_AVOID_XNS_FEESWAP") != "", avoidIBC: os.Getenv("VERIF_C10_AVOID_IBC_REIMPORT") != ""}
 	// template prefix (identical for every case, so not part of the op list): beacon set, zero mint fee,
 	// three tokens of scales 6/18/0 with balances spread over the users
 	p := e.K.Token.GetParams(c.Ctx)
@@ -271,6 +295,12 @@ func (m *m10) Next(t *rapid.T) op10 {
 		op.Amount = m.drawAmount(t, m.c.Balance(e.Users[op.Who].Addr, m.toks[op.Tok].minUnit).BigInt()).String()
 		m.feeSeen = append(m.feeSeen, op)
 		return op
+	case k >= 97 || k >= 94 && m.nReimp == 0 && len(dep) > 0: // restart of the token module from its exported genesis
+		if m.avoidIBC && m.toks[c10IBCTok].registered {
+			m.cls["skipped:C10/reimport-import"] = true
+			return op10{Kind: "enable", Who: -1, Enable: true}
+		}
+		return op10{Kind: "reimport", Who: -1}
 	default:
 		op := op10{Kind: "enable", Who: -1, Enable: rapid.IntRange(0, 2).Draw(t, "on") != 0}
 		return op
@@ -440,6 +470,9 @@ func (m *m10) Apply(op op10) error {
 			}
 			tk.contract, tk.registered = &a, true
 			m.cls["deployed"] = true
+			if m.nReimp > 0 {
+				m.cls["deploy-after-reimport"] = true
+			}
 			if tk.twin >= 0 && m.toks[tk.twin].contract != nil || tk.twinOf >= 0 && m.toks[tk.twinOf].contract != nil {
 				m.cls["cross-namespace-pair-both-deployed"] = true
 			}
@@ -473,6 +506,9 @@ func (m *m10) Apply(op op10) error {
 			tk.erc[op.To] = new(big.Int).Add(m.ercBal(tk, op.To), amount)
 			m.cls["toerc20-ok"] = true
 			m.notePair(tk, true)
+			if tk.restored {
+				m.cls["toerc20-after-reimport"] = true
+			}
 		}
 
 	case "fromerc20":
@@ -500,6 +536,9 @@ func (m *m10) Apply(op op10) error {
 			tk.erc[op.Who] = new(big.Int).Sub(m.ercBal(tk, op.Who), amount)
 			m.cls["fromerc20-ok"] = true
 			m.notePair(tk, true)
+			if tk.restored {
+				m.cls["fromerc20-after-reimport"] = true
+			}
 			if op.To == 7 {
 				m.cls["receiver-new-account"] = true
 			}
@@ -562,6 +601,9 @@ func (m *m10) Apply(op op10) error {
 		commit = func() {
 			tk.erc[op.Who] = new(big.Int).Sub(m.ercBal(tk, op.Who), amount)
 			m.cls["tonative-ok"] = true
+			if tk.restored {
+				m.cls["tonative-after-reimport"] = true
+			}
 			if len(m.deployed()) > 1 {
 				m.cls["tonative-with-several-contracts"] = true
 			}
@@ -590,6 +632,45 @@ func (m *m10) Apply(op op10) error {
 
 	case "feeswap":
 		return m.feeSwap(op, tk, before, evmBefore)
+
+	case "reimport":
+		// restart of the token module from its own exported genesis: params (beacon, enable switch), every token
+		// record with its bound contract and the burned totals are carried; the EVM state, the bank and the swap
+		// registries (process configuration) are not part of it. The model stays as it is.
+		nContracts := len(m.deployed())
+		if _, stage, err := c.Reimport(tokentypes.ModuleName); err != nil {
+			return pbt.Failf("C10/reimport-"+stage, "token genesis round trip with %d bound contracts (IBC voucher registered: %v): %v",
+				nContracts, m.toks[c10IBCTok].registered, err)
+		}
+		if got := chain.Diff(before, c.Snapshot()); !got.Empty() {
+			return pbt.Failf("C10/reimport-moved-coins", "genesis round trip changed balances: %s", got)
+		}
+		if d := c.EVMState.Digest(); d != evmBefore {
+			return pbt.Failf("C10/reimport-touched-evm", "genesis round trip changed the EVM state")
+		}
+		m.nReimp++
+		m.cls["reimport"] = true
+		if nContracts > 0 {
+			m.cls["reimport-with-contracts"] = true
+		}
+		if nContracts < len(m.toks) {
+			m.cls["reimport-with-unbound-tokens"] = true
+		}
+		if !m.enabled {
+			m.cls["reimport-while-disabled"] = true
+		}
+		for _, t := range m.toks {
+			t.restored = t.contract != nil
+			if t.contract != nil && t.twin >= 0 && m.toks[t.twin].contract != nil {
+				m.cls["reimport-with-cross-namespace-pair-bound"] = true
+			}
+			for _, b := range t.erc {
+				if b.Sign() > 0 {
+					m.cls["reimport-with-erc20-balances"] = true
+				}
+			}
+		}
+		return m.invariants()
 
 	case "enable":
 		conversion = false
@@ -785,6 +866,22 @@ func (m *m10) feeSwap(op op10, tk *tok10, before chain.Sheet, evmBefore string) 
 func (m *m10) invariants() error {
 	c := m.c
 	for _, tk := range m.toks {
+		// the token record names exactly the contract the model bound to it (also after a restart)
+		rec, err := c.E.K.Token.GetToken(c.Ctx, tk.symbol) // by symbol: unambiguous
+		switch {
+		case !tk.registered:
+			if err == nil {
+				return pbt.Failf("C10/token-record", "token %s has a record although it was never deployed or issued", tk.symbol)
+			}
+		case err != nil:
+			return pbt.Failf("C10/token-record", "token %s lost its record: %v", tk.symbol, err)
+		case rec.GetMinUnit() != tk.minUnit || rec.GetScale() != tk.scale:
+			return pbt.Failf("C10/token-record", "token %s reads min unit %s scale %d", tk.symbol, rec.GetMinUnit(), rec.GetScale())
+		case tk.contract == nil && rec.GetContract() != "":
+			return pbt.Failf("C10/token-record", "token %s is bound to %s, model: no contract", tk.symbol, rec.GetContract())
+		case tk.contract != nil && common.HexToAddress(rec.GetContract()) != *tk.contract:
+			return pbt.Failf("C10/token-record", "token %s is bound to %q, model %s", tk.symbol, rec.GetContract(), tk.contract.Hex())
+		}
 		sup := c.Supply(tk.minUnit).BigInt()
 		total := new(big.Int)
 		if tk.contract != nil {
@@ -823,8 +920,8 @@ func (m *m10) Classify() (bool, []string) {
 }
 
 const c10Rule = "rapid state machine on the K-driver with the transactional harness EVM: deployERC20 / swapToERC20 / swapFromERC20 / contract swapToNative + " +
-	"PostTxProcessing hook / swapFeeToken (keeper copy WithSwapRegistry, any positive ratio, 9 tokens of scales 0..18 incl. a trace-only bank denom, the native token and two pairs whose one symbol equals the other's min unit - one pair with both sides deployable, one with a single deployable side; 40 % of the conversions pick a pair token) / " +
-	"owner mint+burn / enable-disable; receivers incl. blocked, new and malformed addresses; injected EVM error, revert, +-1 mis-credit and silent no-op; amounts relative to live " +
+	"PostTxProcessing hook / swapFeeToken (keeper copy WithSwapRegistry, any positive ratio, 10 tokens of scales 0..18 incl. a trace-only bank denom, an IBC voucher denom (ibc/HASH), the native token and two pairs whose one symbol equals the other's min unit - one pair with both sides deployable, one with a single deployable side; 40 % of the conversions pick a pair token) / " +
+	"owner mint+burn / enable-disable / restart of the token module from its exported genesis (the history continues on the restored state); receivers incl. blocked, new and malformed addresses; injected EVM error, revert, +-1 mis-credit and silent no-op; amounts relative to live " +
 	"balances and by shape up to 2^128; non-trivial = history with a failed conversion after at least one successful conversion; distinct by SHA-256 of the op list"
 
 func init() { pbt.RegisterMachine("c10", newC10) }
